@@ -197,6 +197,12 @@ theorem merge_calls_ok :
 (computed on the SSA of `reWriteData` by dominance) -/
 theorem rewrite_under_lock : rewriteUnlocked = [] := by decide
 
+/-- **`Backup` is one read transaction.** Regenerated from db.go: the body of `DB.Backup` outside the function
+literal does nothing but call `db.View` (no file-system call, no other nutsdb call, no field of `*DB`), and the
+literal handed to `View` calls `filesystem.CopyDir` and nothing else — so every byte Backup reads from the
+directory is read while the read lock of the transaction is held. -/
+theorem backup_under_read_lock : backupShape = (["DB.View"], [], ["filesystem.CopyDir"]) := by decide
+
 /-- **`isFilterEntry`, regenerated.** The model's `isFilter` (which records Merge never rewrites) is the
 kernel that `tools/extract` regenerates from the SSA of `DB.isFilterEntry`, with every flag load bound to the
 record's flag and the call of `IsExpired` bound to the model's `isExpired` (itself the regenerated `IsExpired`
